@@ -259,6 +259,26 @@ def r2_dispatch(ck, prog, run):
             found = str([{k: str(v)[:50] for k, v in a.items() if not isinstance(v, NoneV)} for a in fa[:2]])
         ck.same("R2", f.where, tag, "the single-double quotient is only a coarse estimate: divisor*quotient is rebuilt as a two-part Phase and subtracted part-wise (exact correction)",
                 ok, found=found, nontrivial=True)
+    # ---- add / subtract of n-d phases without out=: the result must not be written into an operand's buffer
+    K3 = sp.Integer(3)
+    for name in ("add", "subtract"):
+        for label, shapes in (("1-d Phase, 1-d Phase", ((K3,), (K3,))), ("scalar Phase, 1-d Phase", ((), (K3,))), ("1-d Phase, scalar Phase", ((K3,), ()))):
+            n_fam += 1
+            p, q = make_phase(prog, "p", shape=shapes[0]), make_phase(prog, "q", shape=shapes[1])
+            tag = f"np.{name}({label}) without out="
+            r = attempt(tag, lambda: run_uf(prog, name, [p, q], 0))
+            if r is None:
+                continue
+            res, events, calls, ev = r
+            fa = [e_[1] for e_ in events if e_[0] == "from_angles"]
+            bufs = {o_.attrs["_buf"].s: nm for o_, nm in ((p, "the first operand"), (q, "the second operand"))}
+            bad = None
+            for a_ in fa:
+                o_ = a_.get("out")
+                if isinstance(o_, ObjV) and isinstance(o_.attrs.get("_buf"), StrV) and o_.attrs["_buf"].s in bufs:
+                    bad = f"from_angles(..., out=<a view of {bufs[o_.attrs['_buf'].s]}>)"
+            ck.same("R2", f.where, tag, "the result is built in fresh storage: no operand's buffer (or a view of it) is used as the output", bad is None and len(fa) >= 1,
+                    found=bad or f"{len(fa)} from_angles calls", nontrivial=True)
     # ---- the same family with a Phase as divisor, and with a Phase dividing a plain Quantity
     for name in ("floor_divide", "remainder", "divmod"):
         for label, mk, si in (("Phase, Phase", lambda p, q: [p, q], 0), ("Quantity in cycles, Phase", lambda p, q: [d, q], 1)):
@@ -307,7 +327,7 @@ def r2_dispatch(ck, prog, run):
         ok = len(calls) == 1 and isinstance(calls[0][2][0], Num) and sp.simplify(calls[0][2][0].expr - sp.I * p.attrs["_pfrac"].expr * CYCLE) == 0
         ck.same("R2", f.where, "np.exp(1j * phase)", "evaluated on i * 2*pi * frac only (the cycle count does not enter)", ok,
                 found=str([[str(x)[:60] for x in t[2]] for t in calls]), nontrivial=True)
-    run.floor("R2", "ufunc family / operand arrangements evaluated", n_fam, 51)
+    run.floor("R2", "ufunc family / operand arrangements evaluated", n_fam, 57)
 
 
 # ---------------------------------------------------------------------------------------- R5
